@@ -27,6 +27,12 @@ RELAY_STAGES = ['connect', 'banner', 'ehlo', 'helo', 'starttls', 'starttls-hands
 
 def cases(tier, seed, phase):
     yield {'side': 'table'}
+    for rep in range(2 if tier == 'quick' else 6):
+        yield {'side': 'server-pair', 'rep': rep, 'stall_first': rep % 2 == 0}
+    for rep in range(1 if tier == 'quick' else 3):
+        for lmtp in (False, True):
+            for what in ('partial-line', 'silent', 'garbage-line'):
+                yield {'side': 'relay-idle', 'what': what, 'lmtp': lmtp, 'pipelining': rep % 2 == 0, 'rep': rep}
     reps = 1 if tier == 'quick' else 3
     for rep in range(reps):
         for p in SERVER_POINTS:
@@ -650,6 +656,162 @@ def run_http(case, model):
     return CaseResult(mismatch, hits, ('http', case['what'], case['rep']), ['http'])
 
 
+def run_server_pair(case, model):
+    """Two sessions at the same edge: one goes silent after EHLO, the other keeps talking. The silent one must get its 421 at its own
+    command timeout, the busy one must not be disturbed (timers are per session)."""
+    import gevent
+    from gevent import socket
+    from slimta.edge.smtp import SmtpEdge
+
+    class NullQueue(object):
+        def enqueue(self, env):
+            return [(env, 'id')]
+    edge = SmtpEdge(None, NullQueue(), command_timeout=CMD_T, data_timeout=DATA_T, hostname='edge.example')
+    out = {}
+
+    def reply(f):
+        while True:
+            l = f.readline()
+            if not l:
+                return None
+            if l.strip() and l[3:4] != b'-':
+                return int(l[:3])
+
+    def silent():
+        a, b = socket.socketpair()
+        g = gevent.spawn(edge.handle, b, ('127.0.0.1', 40001))
+        f = a.makefile('rb')
+        reply(f)
+        a.sendall(b'EHLO silent.example\r\n'); reply(f)
+        t0 = time.time()
+        with gevent.Timeout(WATCHDOG, False):
+            out['silent_code'] = reply(f)
+            out['silent_t'] = time.time() - t0
+        a.close()
+        g.kill(block=False)
+
+    def busy():
+        a, b = socket.socketpair()
+        g = gevent.spawn(edge.handle, b, ('127.0.0.1', 40002))
+        f = a.makefile('rb')
+        codes = [reply(f)]
+        a.sendall(b'EHLO busy.example\r\n'); codes.append(reply(f))
+        with gevent.Timeout(WATCHDOG, False):
+            for _ in range(8):
+                gevent.sleep(CMD_T / 3)
+                a.sendall(b'NOOP\r\n')
+                codes.append(reply(f))
+            a.sendall(b'QUIT\r\n'); codes.append(reply(f))
+        out['busy_codes'] = codes
+        a.close()
+        g.kill(block=False)
+    order = [silent, busy] if case['stall_first'] else [busy, silent]
+    gs = [gevent.spawn(fn) for fn in order]
+    gevent.joinall(gs, timeout=WATCHDOG + 2)
+    hits = []
+    if out.get('silent_code') != 421 or not (0.7 * CMD_T <= out.get('silent_t', 99) <= CMD_T + SLACK):
+        hits.append(hit('c14.server-pair.silent-session', 'with another session busy at the same edge, the silent session did not get its 421 at its command timeout',
+                        observed={'code': out.get('silent_code'), 'after_s': round(out.get('silent_t', -1), 3)}, expected={'code': 421, 'after_s': CMD_T}))
+    if out.get('busy_codes') != [220, 250] + [250] * 8 + [221]:
+        hits.append(hit('c14.server-pair.busy-session-disturbed', 'a session that kept talking was cut off or mis-answered while another session at the same edge timed out',
+                        observed=out.get('busy_codes')))
+    return CaseResult(None, hits, ('server-pair', case['rep']), ['server-pair'])
+
+
+def run_relay_idle(case, model):
+    """A kept connection: the first message is delivered, then the peer says the beginning of a line (or nothing, or a line that is
+    no reply) and goes silent with the connection open; a second message is handed to the same pooled client. The second attempt
+    must end within the command timeout (plus what a delivery over a new connection takes) with a result or a transient failure."""
+    import gevent
+    from gevent import socket
+    from slimta.relay import RelayError
+    from slimta.relay.smtp.static import StaticSmtpRelay, StaticLmtpRelay
+    from slimta.envelope import Envelope
+    conns = []
+
+    def peer(sock, first):
+        f = sock.makefile('rb')
+        try:
+            sock.sendall(b'220 peer ready\r\n')
+            n = 0
+            while True:
+                l = f.readline()
+                if not l:
+                    return
+                cmd = l.split(None, 1)[0].upper() if l.strip() else b''
+                if cmd in (b'EHLO', b'LHLO'):
+                    sock.sendall(b'250-peer\r\n250 PIPELINING\r\n' if case['pipelining'] else b'250 peer\r\n')
+                elif cmd == b'DATA':
+                    sock.sendall(b'354 go\r\n')
+                    while f.readline() not in (b'.\r\n', b''):
+                        pass
+                    sock.sendall(b'250 2.0.0 ok\r\n' * (2 if case['lmtp'] else 1))
+                    n += 1
+                    if first and n == 1:
+                        gevent.sleep(0.01)
+                        if case['what'] == 'partial-line':
+                            sock.sendall(b'421 4.4.2 idl')
+                        elif case['what'] == 'garbage-line':
+                            sock.sendall(b'this is not a reply')
+                        gevent.sleep(30)          # silent, connection open
+                        return
+                elif cmd == b'QUIT':
+                    sock.sendall(b'221 bye\r\n')
+                    return
+                else:
+                    sock.sendall(b'250 ok\r\n')
+        except OSError:
+            pass
+
+    def creator(address):
+        a, b = socket.socketpair()
+        conns.append(gevent.spawn(peer, b, not conns))
+        return a
+    cls = StaticLmtpRelay if case['lmtp'] else StaticSmtpRelay
+    relay = cls('peer.example', 25, socket_creator=creator, ehlo_as='relay.example', connect_timeout=CONN_T, command_timeout=CMD_T,
+                data_timeout=DATA_T, idle_timeout=5.0, pool_size=1)
+    hits = []
+    try:
+        for n in (1, 2):
+            env = Envelope('s@example.com', ['a@example.com', 'b@example.com'])
+            env.parse(b'Subject: x\r\n\r\nbody %d\r\n' % n)
+            box = {}
+            t0 = time.time()
+
+            def go():
+                try:
+                    box['ret'] = relay.attempt(env, 0)
+                except RelayError as e:
+                    box['exc'] = e
+                except BaseException as e:
+                    box['other'] = e
+                box['t'] = time.time()
+            g = gevent.spawn(go)
+            g.join(WATCHDOG)
+            if not g.ready():
+                g.kill(block=False)
+                hits.append(hit('c14.relay-attempt-still-blocked.idle-%s.attempt%d' % (case['what'], n), 'an attempt over a kept connection is still blocked',
+                                observed={'waited_s': WATCHDOG}))
+                break
+            if 'other' in box:
+                hits.append(hit('c14.relay-attempt-raised-non-relay-error.idle', 'the attempt ended with something other than a result or a relay error',
+                                observed=repr(box['other'])[:200]))
+                break
+            if n == 1 and 'ret' not in box:
+                break       # the first delivery did not go through: nothing to say about reuse
+            if box['t'] - t0 > 2 * CMD_T + DATA_T + SLACK:
+                hits.append(hit('c14.relay-attempt-held-too-long.idle-' + case['what'], 'an attempt over a kept connection was held beyond its timeouts',
+                                observed={'elapsed': round(box['t'] - t0, 3)}))
+                break
+            gevent.sleep(0.03)
+    finally:
+        for c in list(relay.pool):
+            c.kill(block=False)
+        for g in conns:
+            g.kill(block=False)
+    return CaseResult(None, hits, ('relay-idle', case['what'], case['lmtp'], case['pipelining'], case['rep']), ['relay-idle'])
+
+
 def run_table(case, model):
     """The scope table extracted from the current source (harness/scopes.py, `ast`) against the model's table."""
     from harness import scopes
@@ -665,8 +827,31 @@ def run_table(case, model):
 
 
 def run_case(case, model):
+    """Wall-clock observations are repeated before they are believed: a finding is reported only if the same case fails three times in
+    a row with the same signature (a wrong or missing timeout fails every time; a machine that was busy for a moment does not)."""
+    r = _run_case(case, model)
+    if case['side'] == 'table':
+        return r
+    for _ in range(2):
+        if not r.hits and not r.mismatch:
+            return r
+        first = r.hits[0]['signature'] if r.hits else None
+        r2 = _run_case(case, model)
+        if (first is not None and not any(h['signature'] == first for h in r2.hits)) or (first is None and not r2.mismatch):
+            r2.tags.append('wall-clock-retry')      # did not repeat: what the second run saw (possibly another finding) is examined in turn
+            r = r2
+            continue
+        r = r2
+    return r
+
+
+def _run_case(case, model):
     if case['side'] == 'table':
         return run_table(case, model)
+    if case['side'] == 'server-pair':
+        return run_server_pair(case, model)
+    if case['side'] == 'relay-idle':
+        return run_relay_idle(case, model)
     import gevent
     try:
         gevent.get_hub().exception_stream = None
